@@ -7,6 +7,8 @@ import (
 	"fmt"
 	"math/rand/v2"
 	"net/netip"
+	"sync/atomic"
+	"time"
 
 	"github.com/mycoria/crop"
 	"github.com/mycoria/mycoria/api/dns"
@@ -68,7 +70,9 @@ type Instance struct {
 
 	StateV   *state.State
 	StorageV storage.Storage
-	TunV     *tun.Device
+	// SlowV is StorageV: the real in-memory storage behind an interposed delay (0 unless a workload sets one)
+	SlowV *SlowStorage
+	TunV  *tun.Device
 
 	PeeringV *peering.Peering
 	SwitchV  *switchr.Switch
@@ -131,8 +135,9 @@ func NewBareInstance(id *m.Address, cfg *config.Config) *Instance {
 		ConfigV:   cfg,
 		IdentityV: id,
 		BuilderV:  frame.NewFrameBuilder(),
-		StorageV:  storage.NewMemStorage(),
 	}
+	in.SlowV = &SlowStorage{Storage: storage.NewMemStorage()}
+	in.StorageV = in.SlowV
 	in.BuilderV.SetFrameMargins(peering.FrameOffset, peering.FrameOverhead)
 	in.StateV = state.New(in, in.StorageV)
 	in.TableV = m.NewRoutingTable(m.RoutingTableConfig{})
@@ -234,4 +239,26 @@ func (p *Pair) FreshReceiver() {
 		panic(err)
 	}
 	p.BA.SetEncryptionSession(enc)
+}
+
+// SlowStorage is the real storage with an adjustable delay in front of the router lookup: storage access is one
+// of the points where the router's workers really are suspended (a state file, a database), so this is where the
+// harness may legitimately stretch time to let two workers meet.
+type SlowStorage struct {
+	storage.Storage
+	getRouterDelay atomic.Int64 // nanoseconds
+	// GetRouterCalls counts lookups (so a workload can tell that its delay was exercised).
+	GetRouterCalls atomic.Int64
+}
+
+// SetGetRouterDelay sets the delay of every following GetRouter call.
+func (s *SlowStorage) SetGetRouterDelay(d time.Duration) { s.getRouterDelay.Store(int64(d)) }
+
+// GetRouter waits for the configured delay, then asks the real storage.
+func (s *SlowStorage) GetRouter(ip netip.Addr) (*storage.StoredRouter, error) {
+	s.GetRouterCalls.Add(1)
+	if d := s.getRouterDelay.Load(); d > 0 {
+		time.Sleep(time.Duration(d))
+	}
+	return s.Storage.GetRouter(ip)
 }
